@@ -42,6 +42,7 @@ type Ctx struct {
 	bindParam   map[*ssa.Parameter]ssa.Value
 	curRoot     *ssa.Function // the function a guard-obligation context is analysing
 	frozen      map[*ssa.Global]bool
+	privRoots   map[string]bool // locals (by address) that no call can change; their fields survive calls in the walker
 	initCells   map[*ssa.Package]map[*ssa.Global]*cell
 	stats       struct {
 		packages, functions, blocks, instrs int
